@@ -7,12 +7,15 @@ cd "$(dirname "$(readlink -f "$0")")" || exit 2
 export VERIF_ROOT="${VERIF_ROOT:-$PWD}"
 export GOFLAGS=-mod=mod GOPROXY=off GOSUMDB=off GOTOOLCHAIN=local
 export VERIF_TIER="${2:-quick}"
+# the tree the harness is built against: /repo (go.mod: replace => /repo); scratch copies of /verif made by
+# scripts/mutcampaign.py rewrite both
+VERIF_REPO="${VERIF_REPO:-/repo}"
 mkdir -p bin
 if [ "$1" = "C11" ]; then
   # the concurrency check links instrumented copies of the client and core packages (go build
   # -overlay; /repo itself is not touched)
   rm -rf bin/c11-overlay && mkdir -p bin/c11-overlay
-  if ! go build -o bin/instr ./cmd/instr 2> bin/build.err || ! ./bin/instr /repo "$PWD/bin/c11-overlay" "$PWD/sched/verifsync/verifsync.go" > bin/instr.log 2>> bin/build.err \
+  if ! go build -o bin/instr ./cmd/instr 2> bin/build.err || ! ./bin/instr "$VERIF_REPO" "$PWD/bin/c11-overlay" "$PWD/sched/verifsync/verifsync.go" > bin/instr.log 2>> bin/build.err \
      || ! go build -overlay bin/c11-overlay/overlay.json -o bin/c11 ./cmd/c11 2>> bin/build.err; then
     cat bin/build.err >&2
     echo "BUILD-ERROR: the instrumented harness does not build against /repo's working tree" >&2
